@@ -167,6 +167,10 @@ theorem bpR_sound (st : StructTable) (ρ : Store) (fld : String) :
     split
     · simp [proj1_null]
     · exact bpR_sound st ρ fld v t f h
+  | .fork c ix e, t, f, h => by
+    simp only [wtR] at h
+    simp only [bpR, evalR]
+    exact bpR_sound st ρ fld e t (fset f c ix) h
 theorem bpRList_sound (st : StructTable) (ρ : Store) (fld : String) :
     ∀ (es : List RExp) (t : Ty) (f : ForkAssign), wtRList st t es = true →
       evalRList st ρ f (bpRList fld es) = (evalRList st ρ f es).map (proj1 t fld)
